@@ -249,6 +249,7 @@ def cases(tier, seed):
     # sequences whose raw delta/delta-max ratio lies in (1, 1.1) (the clamp branch of kappa) or far above 1
     seqs[6:18] = ["EKKGGKE", "EKGKKGE", "EGGGGGE", "EEGGGGGE", "KKGGGGGK", "KGEEEEGGK", "EGKKKKGGE", "DRKSTRE",
                   "EEEEEEEEEEEEEEEEEEKG", "KEEEEK", "GKKKKG", "EGKKKEE"]
+    yield {"sweep": 260 if tier == "quick" else 900, "seqs": [], "o": 3}
     for i in range(NHIST[tier]):
         k = rng.choice([1, 1, 2, 3, 4])
         pool = seqs[:18] if i % 5 == 0 else seqs
@@ -305,7 +306,39 @@ def judge_repo_suite(rep):
     shutil.rmtree(tmp, ignore_errors=True)
 
 
+def judge_sweep(case, rep, S):
+    """Hundreds of objects with distinct compositions queried in ONE process; then new objects of the early sequences
+    must still answer like a pristine process does."""
+    rng = gen.sub_rng(0, ID, "sweep")
+    comps = gen.distinct_compositions(rng, case["sweep"], 8, 22)
+    seqs = []
+    for (p, n, z) in comps:
+        pat = [1] * p + [-1] * n + [0] * z
+        rng.shuffle(pat)
+        s = gen.spell(rng, pat)
+        seqs.append(s)
+        o = S["SP"](s)
+        o.get_kappa()
+        o.get_amino_acid_fractions()
+        rep.cnt("sweep_objects")
+    for s in seqs[:60]:
+        o = S["SP"](s)
+        for name, args in (("get_deltaMax", ()), ("get_kappa", ()), ("get_amino_acid_fractions", ()), ("get_Omega", ())):
+            try:
+                got = ("ok", canon(OPS[name](o, *args)))
+            except Exception as e:
+                got = ("raised", type(e).__name__)
+            want = reference(s, [], name, args)
+            rep.cnt("judged_calls")
+            if got != want:
+                rep.viol("history_dependent", "%s on a new object of %s returned %s after %d other objects were queried in this process, a pristine process returns %s" % (
+                    name, s, short(got), len(seqs), short(want)), sig={"op": name, "prev": "sweep"})
+                return
+
+
 def judge(case, rep, S):
+    if case.get("sweep"):
+        return judge_sweep(case, rep, S)
     if case.get("k") == "repo_suite_under_contracts":
         judge_repo_suite(rep)
         return
